@@ -13,6 +13,7 @@ import (
 	"strings"
 	"sync"
 
+	"golang.org/x/tools/go/callgraph"
 	"golang.org/x/tools/go/packages"
 	"golang.org/x/tools/go/ssa"
 	"golang.org/x/tools/go/ssa/ssautil"
@@ -43,6 +44,8 @@ type Program struct {
 	Fset   *token.FileSet
 	Pkgs   map[string]*packages.Package // keyed by short name (PkgPaths) and by full path
 	All    []*packages.Package
+
+	cha, vta *callgraph.Graph
 
 	ssaOnce sync.Once
 	SSAProg *ssa.Program
